@@ -390,7 +390,7 @@ func (b *Builder) Pair(depth int) (*spec.T, *spec.T) {
 			b.label("excluded:F-UPDATE-NILLABLE-CALL")
 			return s, t
 		}
-		if b.Conv.Settings.SkipCopy && b.O.NoSharedAddr && s.Key_() == t.Key_() && s.K != spec.KBasic {
+		if b.Conv.Settings.SkipCopy && b.O.NoSharedAddr && s.Key_() == t.Key_() && s.K != spec.KBasic && s.K != spec.KNamed {
 			// T -> *T of identical non-basic types under skipCopySameType takes the address
 			// of the source expression (known finding F-SKIPCOPY-INTERIOR-PTR)
 			b.label("excluded:F-SKIPCOPY-INTERIOR-PTR")
@@ -1022,6 +1022,9 @@ func (b *Builder) fields(depth int, own *model.Method, sd *spec.TypeDecl) ([]spe
 	}
 	for i := 0; i < n; i++ {
 		variants := []string{"plain", "plain", "plain", "srconly", "tagged"}
+		if sd != nil && !b.O.SamePkg && !b.O.SourcesInConv && !b.inUpdate {
+			variants = append(variants, "unexported-source-type")
+		}
 		if !b.comparableOnly && !b.noNillable {
 			variants = append(variants, "embedded")
 		}
@@ -1066,6 +1069,19 @@ func (b *Builder) fields(depth int, own *model.Method, sd *spec.TypeDecl) ([]spe
 			nm := name()
 			s, t := b.pairAssign(depth - 1)
 			fs = append(fs, spec.F(nm, s))
+			ft = append(ft, spec.F(nm, t))
+		case "unexported-source-type":
+			// exported source field of a named basic type with an unexported name (type level int):
+			// the conversion T(source.F) never spells the source type, so it is convertible
+			nm := name()
+			s, t := b.leafBasic()
+			if s.K == spec.KNamed {
+				s = b.Prog.Underlying(s)
+			}
+			tn := fmt.Sprintf("lvl%s%d", strings.Title(strings.ReplaceAll(s.Name, ".", "")), b.id())
+			b.A.Types = append(b.A.Types, &spec.TypeDecl{Name: tn, U: s})
+			b.label("field:unexported-source-type")
+			fs = append(fs, spec.F(nm, spec.Named(b.A.Key, tn)))
 			ft = append(ft, spec.F(nm, t))
 		case "tagged":
 			nm := name()
@@ -1403,6 +1419,26 @@ func (b *Builder) Method(name string, depth int) *model.Method {
 	}
 	m, _ := b.declare(name, s, t)
 	return m
+}
+
+// PointerTwin (skipCopySameType programs): a declared method *S -> *S over one named struct type
+// next to positions S -> *S (struct field and slice element) in another method with a value and
+// with a pointer source. Only identical types may be shared: *S -> *S shares the pointee, S -> *S
+// must not point into the source (the source holds an S there, not a *S).
+func (b *Builder) PointerTwin(name string) {
+	id := b.id()
+	sn := fmt.Sprintf("Twin%d", id)
+	b.A.Types = append(b.A.Types, &spec.TypeDecl{Name: sn, U: spec.Struct(
+		spec.F("ID", spec.Basic("int")), spec.F("Tags", spec.Slice(spec.Basic("string"))), spec.F("P", spec.Ptr(spec.Basic("int"))))})
+	st := spec.Named(b.A.Key, sn)
+	b.declare(fmt.Sprintf("Keep%d", id), spec.Ptr(st), spec.Ptr(st))
+	wn, vn := fmt.Sprintf("TwinSrc%d", id), fmt.Sprintf("TwinDst%d", id)
+	b.A.Types = append(b.A.Types, &spec.TypeDecl{Name: wn, U: spec.Struct(spec.F("Primary", st), spec.F("Items", spec.Slice(st)))})
+	b.B.Types = append(b.B.Types, &spec.TypeDecl{Name: vn, U: spec.Struct(spec.F("Primary", spec.Ptr(st)), spec.F("Items", spec.Slice(spec.Ptr(st))))})
+	w, v := spec.Named(b.A.Key, wn), spec.Named(b.B.Key, vn)
+	b.declare(name, w, v)
+	b.declare(name+"P", spec.Ptr(w), spec.Ptr(v))
+	b.label("skipcopy:pointer-twin")
 }
 
 // StructMethod declares a top-level converter method whose pair is a named struct pair.
